@@ -89,6 +89,11 @@ var probeCompact = []emitted{
 		cSet("i1", "rsum", "three", "rpath", "r2.txt", "rclean", "r2.txt"), cCompact(), cCompact()),
 	hist(cNewEpic("E1"), cSet("i1", "title", "E1 renamed"), cSet("i1", "body", "epic body"), cCompact(), cCompact()),
 	hist(cNewTask("title", "A"), cNewTask("title", "B"), cNewTask("title", "C"), cCompact(), cClaim("a1"), cClaim("a2"), cClaim("a3")),
+	// edges of every kind across a compaction: epic->epic, task->task inside and across epics
+	hist(cNewEpic("E1"), cNewEpic("E2"), cNewTask("title", "A", "epic", "i1"), cNewTask("title", "B", "epic", "i2"), cSeq("i1", "i2"),
+		cCompact(), cListReady(), cClaim("a1"), cClaim("a2"), cCompact()),
+	hist(cNewEpic("E1"), cNewEpic("E2"), cNewEpic("E3"), cSeq("i1", "i2", "i3"), cNewTask("title", "A", "epic", "i3"), cNewTask("title", "B"),
+		cSeq("i5", "i4"), cCompact(), cSeqRm("i1", "i2"), cCompact(), cCompact()),
 }
 
 // edges around prune / compact / removal
@@ -160,4 +165,14 @@ var probeIDOrder = []emitted{
 	hist(withID(cNewEpic("old"), "MMMMMM"), withID(cNewEpic("new"), "ZZZZZZ"), withID(cNewTask("title", "moved", "epic", "i1"), "AAAAAA"),
 		cSet("i3", "epic", "i2"), cCompact(), cListReady(), cPrune(), cCompact()),
 	hist(withID(cNewEpic("new"), "ZZZZZZ"), withID(cNewTask("title", "moved"), "AAAAAA"), cSet("i2", "epic", "i1"), cCompact(), cCompact(), cPrune()),
+}
+
+// commands that rewrite the whole log (plan, torn-tail repair, compact) after a
+// prune: the history before them must survive as it was
+var probeAfterPrune = []emitted{
+	hist(cNewTask("title", "A", "state", "done"), cNewTask("title", "B"), cSeq("i1", "i2"), cPrune(), cNewTask("title", "C"),
+		cPlan("P", "x", "y"), cSet("i3", "body", "later"), cListReady(), cCompact()),
+	hist(cNewEpic("E"), cNewTask("title", "A", "epic", "i1", "state", "canceled"), cNewTask("title", "B"), cPrune(), cTear("partial"),
+		cNewTask("title", "C"), cPlan("P", "x"), cListReady()),
+	hist(cNewTask("title", "A", "state", "done"), cPrune(), cPlan("P", "x", "y"), cSet("i3", "state", "done"), cPrune(), cPlan("Q", "z"), cListReady()),
 }
